@@ -274,5 +274,5 @@ CHECKS["C08"] = dict(
     level_text="At least once: the C01/C05 obligations hold on the union of what the non-crashed instances (and crashed ones before their crash) delivered, under every explored pattern of partitions, isolation and crashes, as long as one instance stays up. No duplicates when healthy: with all links up and no crash every notification in the union is justified w.r.t. the previous one (C04 monitor on the union) and only the first-positioned instance sends.",
     level_note="memberlist's own random choices (peer selection order, probe targets) are not enumerated: with <= 3 members every gossip round addresses all others; faults are link-level per phase, not per packet. peer_timeout 5s, gossip interval 500ms, bounds extended by (N-1) x peer_timeout + 30s settle slack.",
     assumptions=FAPP_ASSUME + ["instances share one virtual clock (agreeing clocks, as the property assumes)", "a crash is modelled as: all links dead for good and later deliveries discarded; the process is stopped for real only at tear-down"],
-    units=[dict(pkg="app", test="TestVerifC08", shards_quick=16, shards_thorough=16, budget_quick=240, budget_thorough=1800)],
+    units=[dict(pkg="app", test="TestVerifC08", shards_quick=16, shards_thorough=16, budget_quick=320, budget_thorough=1800)],
 )
